@@ -130,21 +130,26 @@ def rand_recipe(r, types=(1, 2, 3, 4, 5, 6, 8), max_lookups=5, with_gdef=None, f
     rec = {"num_glyphs": n, "cmap": "pua", "advances": [500 + 10 * g for g in range(n)]}
     with_gdef = r.chance(2, 3) if with_gdef is None else with_gdef
     nsets = 0
+    # mark-heavy profile: half of the glyphs are marks, every mark has an attachment class, there are mark filtering
+    # sets, and lookups combine attachment-type and filtering-set flags (the interplay of the skipping rules)
+    heavy = bool(with_gdef and flags and r.chance(1, 4))
     if with_gdef:
         classes = {}
         for g in range(1, n):
             k = r.below(6)
-            if k < 3: classes[g] = 1
+            if heavy:
+                classes[g] = 3 if k < 3 else (1 if k < 5 else 2)
+            elif k < 3: classes[g] = 1
             elif k == 3: classes[g] = 2
             elif k == 4: classes[g] = 3
         marks = [g for g, c in classes.items() if c == 3]
         gd = {"classes": classes}
-        if marks and r.chance(1, 2):
-            gd["mark_attach"] = {g: r.range(1, 2) for g in marks if r.chance(2, 3)}
-        if marks and r.chance(1, 2):
+        if marks and (heavy or r.chance(1, 2)):
+            gd["mark_attach"] = {g: r.range(1, 3 if heavy else 2) for g in marks if heavy or r.chance(2, 3)}
+        if marks and (heavy or r.chance(1, 2)):
             gd["mark_sets"] = [sorted(set(r.sample(marks, r.range(1, len(marks))))) for _ in range(r.range(1, 2))]
             nsets = len(gd["mark_sets"])
-        if r.chance(1, 6):
+        if r.chance(1, 6) and not heavy:
             gd = {"classes": {}}      # GDEF present but no glyph classes
         rec["gdef"] = gd
     classdefs = [{g: r.range(1, 2) for g in range(1, n) if r.chance(1, 2)} for _ in range(2)] + [{}]
@@ -154,7 +159,11 @@ def rand_recipe(r, types=(1, 2, 3, 4, 5, 6, 8), max_lookups=5, with_gdef=None, f
         t = r.choice(list(types))
         flag = 0
         mark_set = None
-        if flags and r.chance(1, 2):
+        if heavy and r.chance(3, 4):
+            flag = r.choice([0x100, 0x200, 0x300, 0x100 | 2, 0x200 | 4, 0, 0, 8])
+            if nsets and r.chance(1, 2):
+                mark_set = r.below(nsets)
+        elif flags and r.chance(1, 2):
             flag = r.choice([2, 4, 8, 6, 0x100, 0x200, 8 | 2, 0])
             if nsets and r.chance(1, 3):
                 mark_set = r.below(nsets)
